@@ -221,15 +221,15 @@ I0(s) ==
       bare == src = <<"S">>
       fac == FirstAC(src, 1)
   IN
-  [ scen |-> [src |-> src, wts |-> wts, bare |-> bare],
-    cnt |-> IF bare THEN 0 ELSE 1 + Count(src, "d"),
+  [ scen |-> [src |-> src, wts |-> wts, bare |-> bare, own |-> s.own],
+    cnt |-> IF bare THEN 0 ELSE (IF s.own THEN 1 ELSE 0) + Count(src, "d"),
     hd |-> "0", list |-> <<>>,
     cb |-> [i \in SIdx |-> "0"], freed |-> [i \in SIdx |-> 0], dn |-> [i \in SIdx |-> FALSE],
     jb |-> [j \in Jobs |-> IF Owner(j) <= Len(wts) /\ j = FirstJob(wts[Owner(j)], Owner(j)) /\ wts[Owner(j)] \in {"w", "t"}
                              THEN LiveJob(IF wts[Owner(j)] = "t" THEN 2 ELSE 0) ELSE NewJob],
     timedout |-> FALSE,
     pc |-> [p \in Proc |->
-              IF p = "M" THEN (IF bare THEN "done" ELSE IF fac = 0 THEN "m_done" ELSE "m_add")
+              IF p = "M" THEN (IF bare THEN "done" ELSE IF fac = 0 THEN (IF s.own THEN "m_done" ELSE "done") ELSE "m_add")
               ELSE IF p \in Prods THEN (IF PIdx(p) <= Len(src) THEN "gate" ELSE "done")
               ELSE IF KIdx(p) > Len(wts) THEN "done"
               ELSE IF wts[KIdx(p)] \in {"w", "t"} THEN "w_l"
@@ -257,7 +257,10 @@ ResetScen(s) ==
   /\ timedout' = i.timedout /\ pc' = i.pc /\ mi' = i.mi /\ todo' = i.todo /\ hs' = i.hs /\ wjob' = i.wjob /\ wph' = i.wph
   /\ wret' = i.wret /\ coro' = i.coro /\ kcb' = i.kcb /\ rels' = i.rels /\ touts' = i.touts /\ err' = i.err /\ ev' = i.ev /\ mm' = i.mm
 
-Init == \E s \in Srcs, w \in Wts : InitScen([src |-> SrcChars(s), wts |-> WtChars(w)])
+\* without a unit of M's own only a single attached / consumed future keeps every Add on a count that was never zero
+Init == \E s \in Srcs, w \in Wts, o \in BOOLEAN :
+          /\ o \/ SrcChars(s) \in {<<"a">>, <<"c">>}
+          /\ InitScen([src |-> SrcChars(s), wts |-> WtChars(w), own |-> o])
 
 (***************************************************************************)
 (* What a released waiter reports                                           *)
@@ -390,7 +393,9 @@ SetterStep(p) == SetX(p) \/ JLock(p) \/ JNotify(p) \/ JUnlock(p) \/ JDec(p) \/ J
 (***************************************************************************)
 (* M: Attach / Consume every "a" / "c" source in order, then Done()         *)
 (***************************************************************************)
-MNextPc(i) == IF FirstAC(scen.src, i + 1) = 0 THEN "m_done" ELSE "m_add"
+\* scen.own: M holds a unit of its own (constructor count) and gives it up at the end; without it the count can reach
+\* zero while Attach / Consume is still running (WaitGroup<> wg; wg.Attach(f); wg.Wait())
+MNextPc(i) == IF FirstAC(scen.src, i + 1) = 0 THEN (IF scen.own THEN "m_done" ELSE "done") ELSE "m_add"
 MNextIdx(i) == IF FirstAC(scen.src, i + 1) = 0 THEN i ELSE FirstAC(scen.src, i + 1)
 
 MAdd ==
@@ -422,13 +427,13 @@ MCas ==
      /\ freed' = IF ~ok /\ SKind(i) = "c" THEN [freed EXCEPT ![i] = @ + 1] ELSE freed
      /\ pc' = [pc EXCEPT !.M = IF ok THEN MNextPc(i) ELSE "m_sub"]
      /\ mi' = IF ok THEN MNextIdx(i) ELSE mi
-     /\ ev' = Ev("M", "cas", CbObj(i), "cb" \o S(i), cb[i], cb'[i], ok, <<>>, FALSE, "SetCallback.cas", <<>>)
+     /\ ev' = Ev("M", "cas", CbObj(i), "cb" \o S(i), cb[i], cb'[i], ok, <<>>, ok /\ MNextPc(i) = "done", "SetCallback.cas", <<>>)
   /\ UNCHANGED <<scen, cnt, hd, list, dn, jb, timedout, todo, hs, wjob, wph, wret, coro, kcb, rels, touts, err>>
 
-\* Done(count - wait_count) for the future that was already ready; M still holds its own unit, so this never reaches zero
+\* Done(count - wait_count) for the future that was already ready (reaches zero only when M holds no unit of its own)
 MSub ==
   /\ pc.M = "m_sub"
-  /\ SubFx("M", 1, "Insert.Done.fsub", "Attach", MNextPc(mi), FALSE)
+  /\ SubFx("M", 1, "Insert.Done.fsub", "Attach", MNextPc(mi), MNextPc(mi) = "done")
   /\ mi' = MNextIdx(mi)
   /\ UNCHANGED <<scen, hd, list, cb, freed, dn, jb, timedout, todo, hs, wjob, wph, wret, coro, kcb, rels, touts, err>>
 
